@@ -22,6 +22,7 @@ from __future__ import annotations
 
 import ast
 import importlib
+import importlib.util
 import os
 import sys
 import time
@@ -139,7 +140,7 @@ class Dim:
                 elif model is not None and k in model:
                     tot += v * sp.Rational(model[k].numerator, model[k].denominator)
                 else:
-                    free.append(f"{v}*<{k}>")
+                    free.append(f"<{k}>" if v == 1 else f"({v})*<{k}>")
             tot = sp.expand(tot)
             if tot != 0 or free:
                 out[b] = str(tot) if not free else " + ".join(([str(tot)] if tot != 0 else []) + free)
@@ -829,7 +830,6 @@ def check_module(modname: str, pid: str = "C01") -> dict:
         # harvest), so that a defect in a module whose own derivation `assert` trips is named and not only "no import".
         M = None
         try:
-            import importlib.util
             spec = importlib.util.find_spec(modname)
             if spec is not None and spec.loader is not None:
                 M = importlib.util.module_from_spec(spec)
@@ -879,7 +879,7 @@ def check_module(modname: str, pid: str = "C01") -> dict:
                 res["out_of_reach"].append((f"{short}.{label}", kind, why))
     res["attrs"] = sorted(found_attrs)
     src = getattr(M, "__file__", None)
-    if src:
+    if src and not res.get("partial"):
         res["ast_names_missing"] = sorted(ast_equation_names(src) - found_attrs)
     res["kinds"] = dict(kinds)
     return res
